@@ -281,7 +281,11 @@ def create_reader(shape, cid, run):
     from cutplace import validio
     text = shape.data_text(run["ds"])
     limit = run["limit"][0] if run["limit"] else None
-    return validio.Reader(cid, io.StringIO(text, newline=""), on_error=run["mode"], validate_until=limit), text
+    reader = validio.Reader(cid, io.StringIO(text, newline=""), on_error=run["mode"], validate_until=limit)
+    # every second parked reader is also asked for its iterator now (rows() called, no row asked for yet): the run starts
+    # when its first row is asked for
+    early = reader.rows() if run.get("createdAt", 0) % 2 == 0 else None
+    return reader, text, early
 
 
 def _let_go(keep, release, mine=()):
@@ -305,8 +309,9 @@ def run_read(shape, cid, run, keep=None, prepared=None, release=False):
     limit = run["limit"][0] if run["limit"] else None
     mode = run["mode"]
     handle = None  # (reader, source) of a reader that stays open, for a later run that reads it again
+    early = None
     if prepared is not None:
-        prepared, text = prepared[0], prepared[1]
+        prepared, text, early = prepared[0], prepared[1], (prepared[2] if len(prepared) > 2 else None)
     api = run["api"]
     end = run["end"]
     raw = []  # yielded items are kept as they are and looked at only after the iteration has moved on and ended (C06)
@@ -344,7 +349,7 @@ def run_read(shape, cid, run, keep=None, prepared=None, release=False):
             reader = None
             try:
                 with (prepared or validio.Reader(cid, source, on_error=mode, validate_until=limit)) as reader:
-                    for item in reader.rows():
+                    for item in (early if early is not None else reader.rows()):
                         raw.append(item)
                         if len(raw) == 1:
                             _let_go(keep, release)
@@ -365,7 +370,7 @@ def run_read(shape, cid, run, keep=None, prepared=None, release=False):
             if keep is not None:
                 keep.append(reader)  # "never closed": keep it alive so that no destructor interferes
             try:
-                iterator = reader.rows()
+                iterator = early if early is not None else reader.rows()
                 if keep is not None:
                     keep.append(iterator)
                 if end == "abandon":
